@@ -413,6 +413,9 @@ class PCase:
         deadline = float(os.environ.get("VERIF_DEADLINE", "0")) or None
         for label, (a, b) in pairs.items():
             la, lb = _flat(a), _flat(b)
+            shape_bad = np.shape(a) != np.shape(b)
+            if shape_bad:
+                lb = (lb + [Poly()] * len(la))[:len(la)]
             assert len(la) == len(lb), (label, len(la), len(lb))
             goals = [x - y for x, y in zip(la, lb)]
             ob = {"id": f"{self.id}/{label}", "n_goals": len(goals),
@@ -421,7 +424,7 @@ class PCase:
             tt = time.time()
             pr = xl.Result()
             pr.status = "not_proved"
-            screened_bad = rep0 is not None and label in rep0 and not rep0[label]["ok"]
+            screened_bad = shape_bad or (rep0 is not None and label in rep0 and not rep0[label]["ok"])
             if not screened_bad:
                 for extra in range(self.extra_deg, self.extra_deg + self.deepen + 1):
                     budget = self.budget_s
